@@ -58,7 +58,7 @@ func (s *Service) proxyToSingleEndpoint(ctx context.Context, w http.ResponseWrit
 	if cb != nil && cb.IsOpen() {
 		rlog.Warn("Circuit breaker is open for endpoint", "endpoint", endpoint.Name)
 		s.RecordFailure(ctx, endpoint, time.Since(stats.StartTime), fmt.Errorf("circuit breaker open"))
-		return fmt.Errorf("circuit breaker open for endpoint %s", endpoint.Name)
+		return fmt.Errorf("circuit breaker open for endpoint %s: %w", endpoint.Name, core.ErrEndpointSkipped)
 	}
 
 	// Build target URL using common function that respects preserve_path
